@@ -2,8 +2,8 @@
 (* Property C13: a new slide mirrors its layout's placeholders and inherits their geometry.
 
    Placeholder record (as read from the XML of a layout / master / slide by the driver, document order):
-     [type : STRING, idx : Int, orient : STRING, sz : STRING, own : BOOLEAN (has its own a:xfrm), x, y, cx, cy : Int, name : STRING,
-      rd : BOOLEAN (geometry readers returned numbers), rx, ry, rcx, rcy : Int (what left/top/width/height report; 0 if None)]
+     [type : STRING, idx : Int, orient : STRING, sz : STRING, po, pe : BOOLEAN (its a:xfrm holds a:off / a:ext), own = po /\ pe, x, y, cx, cy : Int, name : STRING,
+      rdo, rde : BOOLEAN (the position / size readers returned numbers), rd = rdo /\ rde, rx, ry, rcx, rcy : Int (what left/top/width/height report; 0 if None)]
    Observation of a deck:  [ slides : Seq([tok, layout : Int, phs : Seq(Ph)]), ... ]                                       *)
 EXTENDS Naturals, Integers, Sequences, FiniteSets, TLC
 
@@ -18,13 +18,23 @@ Read(p) == <<p.rx, p.ry, p.rcx, p.rcy>>
 \* (header and slide-image placeholders have no counterpart on a slide master: they inherit nothing)
 MasterType(t) == CASE t \in {"title", "ctrTitle"} -> "title" [] t \in Latent -> t [] t \in {"hdr", "sldImg"} -> "none" [] OTHER -> "body"
 
-\* candidates for what a slide placeholder with index idx may report: its layout counterpart(s) with that idx; if such a
-\* counterpart has no geometry of its own, the master placeholder of the mapped type
+\* candidates for what a slide placeholder with index idx may report: its layout counterpart(s) with that idx; what such a
+\* counterpart does not carry itself comes from the master placeholder of the mapped type.  Geometry is inherited PAIR by pair: a
+\* placeholder's a:xfrm may hold a position (a:off: po) without a size (a:ext: pe) or the reverse (schema-valid; what a setter writes
+\* when only the position / only the size of a geometry-less placeholder is assigned); own = po /\ pe.
+PairOf(l, mas, has(_), val(_)) ==
+  IF has(l) THEN <<TRUE, val(l)>>
+  ELSE LET ms == {m \in SeqSet(mas) : m.type = MasterType(l.type) /\ has(m)} IN
+       IF ms = {} THEN <<FALSE, <<0, 0>>>> ELSE <<TRUE, val(CHOOSE m \in ms : TRUE)>>
+HasOff(q) == q.po
+HasExt(q) == q.pe
+OffVal(q) == <<q.x, q.y>>
+ExtVal(q) == <<q.cx, q.cy>>
 Inherited(p, lay, mas) ==
   LET cs == {l \in SeqSet(lay) : l.idx = p.idx} IN
-  {IF l.own THEN <<TRUE, Geo(l)>>
-   ELSE LET ms == {m \in SeqSet(mas) : m.type = MasterType(l.type) /\ m.own} IN
-        IF ms = {} THEN <<FALSE, <<0, 0, 0, 0>>>> ELSE <<TRUE, Geo(CHOOSE m \in ms : TRUE)>> : l \in cs}
+  {<<PairOf(l, mas, HasOff, OffVal), PairOf(l, mas, HasExt, ExtVal)>> : l \in cs}
+\* what the geometry readers of a placeholder report, pair by pair (rdo / rde: the pair's two readers returned numbers)
+ReadPairs(p) == << <<p.rdo, IF p.rdo THEN <<p.rx, p.ry>> ELSE <<0, 0>>>>, <<p.rde, IF p.rde THEN <<p.rcx, p.rcy>> ELSE <<0, 0>>>> >>
 
 \* a = [op |-> "addSlide", l] ; s, t observations; lay/mas = placeholders of the layout used and of its master
 Names == <<"PhMirror", "PhNamesUnique", "PhInherit", "NoOwnGeometry", "LastInOrder", "RelatedToLayout", "OthersUntouched">>
@@ -32,7 +42,7 @@ Holds(n, s, a, t, lay, mas) ==
   LET new == t.slides[Len(t.slides)] IN
   CASE n = "PhMirror"        -> [i \in DOMAIN new.phs |-> Key(new.phs[i])] = [i \in DOMAIN NonLatent(lay) |-> Key(NonLatent(lay)[i])]
     [] n = "PhNamesUnique"   -> NoDup([i \in DOMAIN new.phs |-> new.phs[i].name]) /\ \A p \in SeqSet(new.phs) : p.name # ""
-    [] n = "PhInherit"       -> \A p \in SeqSet(new.phs) : ~p.own => <<p.rd, IF p.rd THEN Read(p) ELSE <<0, 0, 0, 0>>>> \in Inherited(p, lay, mas)
+    [] n = "PhInherit"       -> \A p \in SeqSet(new.phs) : (~p.po /\ ~p.pe) => ReadPairs(p) \in Inherited(p, lay, mas)
     [] n = "NoOwnGeometry"   -> TRUE      \* (a new placeholder may or may not carry its own xfrm; nothing is demanded)
     [] n = "LastInOrder"     -> Len(t.slides) = Len(s.slides) + 1
     [] n = "RelatedToLayout" -> new.layout = a.l
